@@ -294,7 +294,7 @@ def transpose_adjoint(ctx):
         rets = [s for s in ast.walk(fn) if isinstance(s, ast.Return) and s.value is not None]
         ok, why = False, "no single return of DiscreteRankOneOperator(column, row)"
         if len(rets) == 1 and isinstance(rets[0].value, ast.Call) and unparse(rets[0].value.func) == "DiscreteRankOneOperator" and len(rets[0].value.args) == 2 and not rets[0].value.keywords:
-            got = [_tc(a, "‹none›") for a in rets[0].value.args]
+            got = [_tc(roles.inline(a, roles.Defs(fn)), "‹none›") for a in rets[0].value.args]
             ok = [slots.get(g[0]) for g in got] == [pa[1], pa[0]] and all(g[2] == want_c for g in got)
             why = "DiscreteRankOneOperator.%s builds (column, row) = (%s%s, %s%s); expected (%srow, %scolumn) of the operator" % (
                 meth, "conj " if got[0][2] else "", slots.get(got[0][0], got[0][0]), "conj " if got[1][2] else "", slots.get(got[1][0], got[1][0]), "conj " if want_c else "", "conj " if want_c else "")
